@@ -11,6 +11,7 @@ from ..core import AnalysisError, const_value, walk_own
 from ..defuse import DefUse, Terms, show, walk_term
 from ..effects import WriterEvents
 from ..astutil import cond_terms, live, norm_cmp
+from ..proto import SELF, Calls, args_of
 
 EXPLANATION = (
     "Static analysis of every concrete TabularDataReader / "
@@ -326,9 +327,9 @@ def _buffered(ctx):
     prog = ctx.prog
     cls = prog.cls(TD + "BufferedWriter")
     # who may call the inner writer's append_data
+    INNER = ("attr", SELF, "writer")
     for name, m in cls.methods.items():
-        calls = [n for n in ast.walk(m.node) if isinstance(n, ast.Call)
-                 and ast.unparse(n.func) == "self.writer.append_data"]
+        calls = Calls(prog, m).mcalls("append_data", INNER)
         if name == "_write_buffer":
             continue        # judged below (C13d-flush-bounds / forced-flush)
         ctx.check(not calls, "C13d-rows-only-leave-through-the-buffer", m,
@@ -340,7 +341,6 @@ def _buffered(ctx):
     cfg = CFG(wb.node)
     du = DefUse(prog, wb)
     T = Terms(du)
-    SELF = ("param", "self")
     BSIZE = ("attr", SELF, "buffer_size")
 
     def slice_call(t):
@@ -400,10 +400,10 @@ def _buffered(ctx):
         return out
 
     appends = []
-    for n in ast.walk(wb.node):
-        if isinstance(n, ast.Call) and ast.unparse(n.func) == \
-                "self.writer.append_data" and len(n.args) == 1:
-            appends.append((n, slice_call(T.of(n.args[0])),
+    for t_, n in Calls(prog, wb, du=du, T=T, cfg=cfg).mcalls(
+            "append_data", INNER):
+        if len(args_of(t_)) == 1 and not t_[4]:
+            appends.append((n, slice_call(args_of(t_)[0]),
                             sem_conds(cfg.stmt_of(n))))
     stores = [(st, T.of(v), sem_conds(st))
               for (r, a_, v, st) in du.attr_stores
@@ -478,13 +478,12 @@ def _buffered(ctx):
               node=bs.node)
     ap = cls.methods["append_data"]
     acfg = CFG(ap.node)
-    fl = [n for n in ast.walk(ap.node) if isinstance(n, ast.Call)
-          and ast.unparse(n) == "self._write_buffer()"]
-    rets = [n for n in ast.walk(ap.node) if isinstance(n, ast.Return)]
-    ok_e = len(fl) >= 1 and not rets and all(
-        acfg.every_path_passes(acfg.entry.id, acfg.exit.id,
-                               {acfg.node_of(x).id for x in fl})
-        for _ in (0,))
+    apc = Calls(prog, ap, cfg=acfg)
+    fl = [x for x in apc.mcalls("_write_buffer", SELF)
+          if not args_of(x[0]) and dict(x[0][4]).get(
+              "force", ("const", False)) == ("const", False)
+          or args_of(x[0])[:1] == (("const", False),)]
+    ok_e = apc.on_every_path(fl)
     ctx.check(ok_e, "C13d-append-ends-in-flush", ap,
               "every append ends with a flush attempt",
               "some path through append_data returns without "
@@ -525,87 +524,264 @@ def _buffered(ctx):
               "all three buffer kinds", "buffer concatenation order changed",
               node=ap.node)
     fin = cls.methods["finalize"]
-    body = [ast.unparse(s) for s in live(fin.node.body, fin.node)]
-    ctx.check(body == ["self._write_buffer(force=True)",
-                       "self.writer.finalize()"], "C13d-finalize-flushes",
-              fin, "finalize forces the flush, then finalizes the inner "
-              "writer", f"{body}", node=fin.node)
+    fc = Calls(prog, fin)
+    forced = [x for x in fc.mcalls("_write_buffer", SELF)
+              if dict(x[0][4]).get("force") == ("const", True)
+              or args_of(x[0])[:1] == (("const", True),)]
+    inner_fin = fc.mcalls("finalize", INNER)
+    why = []
+    if not fc.on_every_path(forced):
+        why.append("the forced flush is not on every path")
+    if not fc.on_every_path(inner_fin):
+        why.append("the inner writer is not finalized on every path")
+    if forced and inner_fin and not fc.before(forced, inner_fin):
+        why.append("the inner writer is finalized before the rest of the "
+                   "buffer is flushed")
+    ctx.check(not why, "C13d-finalize-flushes", fin,
+              "finalize forces the flush, then finalizes the inner writer",
+              "; ".join(why), node=fin.node)
 
 
 # ------------------------------------------------------------------ e
+def _attr_value(prog, cls_q, attr):
+    """Term stored to self.<attr> in <class>.__init__ (single store)."""
+    init = prog.func(cls_q + ".__init__")
+    du = DefUse(prog, init)
+    T = Terms(du)
+    vals = [T.of(v) for (r, a_, v, _st) in du.attr_stores
+            if r == "self" and a_ == attr]
+    return vals[0] if len(vals) == 1 else None
+
+
+def _dict_get(t, k):
+    if t is not None and t[0] == "dict":
+        for kk, vv in zip(t[1], t[2]):
+            if kk == ("const", k):
+                return vv
+    return None
+
+
+def _to_csv_kwargs(prog, t):
+    """Effective keyword arguments of a to_csv call term of the CSV writer:
+    explicit keywords plus the entries of a ``**self.stdargs`` display."""
+    kw = {}
+    for k, v in (t[4] if t[0] == "mcall" else t[3]):
+        if k == "**":
+            if v == ("attr", SELF, "stdargs"):
+                d = _attr_value(prog, TD + "CSVFileWriter", "stdargs")
+                if d is None or d[0] != "dict":
+                    return None
+                for kk, vv in zip(d[1], d[2]):
+                    if kk[0] != "const":
+                        return None
+                    kw.setdefault(kk[1], vv)
+            else:
+                return None
+        else:
+            kw[k] = v
+    return kw
+
+
 def _lifecycle(ctx):
     prog = ctx.prog
+    FNAME = ("attr", SELF, "file_name")
+    # --- write() = validate, initialize, append, finalize
     w = prog.func(TD + "TabularDataWriter.write")
-    body = [ast.unparse(s) for s in live(w.node.body, w.node)]
-    ctx.check(body == ["self.check_valid_data(data)", "self.initialize()",
-                       "self.append_data(data)", "self.finalize()"],
-              "C13e-write-protocol", w,
+    c = Calls(prog, w)
+    DATA = ("param", w.params[1])
+    V = [x for x in c.mcalls("check_valid_data", SELF)
+         if args_of(x[0]) == (DATA,)]
+    I = c.mcalls("initialize", SELF)
+    A = [x for x in c.mcalls("append_data", SELF) if args_of(x[0]) == (DATA,)]
+    F = c.mcalls("finalize", SELF)
+    why = []
+    if not c.on_every_path(A):
+        why.append("some path does not append the data")
+    if len(c.mcalls("append_data")) != len(A) or len(A) != 1:
+        why.append("the data is not appended exactly once as given")
+    if not c.before(I, A):
+        why.append("append_data is reached without initialize()")
+    if not c.after(A, F):
+        why.append("finalize() is not reached after the append")
+    if not c.before(V, I):
+        why.append("the file is initialised before the columns are "
+                   "validated")
+    if c.before(F, A):
+        why.append("finalize() precedes the append")
+    ctx.check(not why, "C13e-write-protocol", w,
               "write() = validate, initialize, append, finalize",
-              f"{body}", node=w.node)
+              "; ".join(why), node=w.node)
+    # --- auto_finalize
     af = prog.func(TD + "auto_finalize")
-    tries = [n for n in ast.walk(af.node) if isinstance(n, ast.Try)]
-    ok = len(tries) == 1 and any(
-        isinstance(x, ast.Yield) for s in tries[0].body
-        for x in ast.walk(s)) and "writer.__exit__(None, None, None)" in \
-        ast.unparse(tries[0].finalbody[0]) and "writer.__enter__()" in \
-        ast.unparse(af.node.body[-2] if len(af.node.body) >= 2
-                    else af.node)
+    c = Calls(prog, af)
+    WR = ("elem", ("param", af.params[0]))
+    enter = c.mcalls("__enter__", WR) + c.mcalls("initialize", WR)
+    exit_ = c.mcalls("__exit__", WR) + c.mcalls("finalize", WR)
+    ys = [n for n in walk_own(af.node) if isinstance(n, ast.Yield)]
+    ok = len(ys) == 1 and bool(enter) and bool(exit_) and \
+        c.in_finally_of_yield(exit_) and all(
+            c.cfg.every_path_passes(
+                c.cfg.entry.id, c.cfg.node_of(ys[0]).id,
+                {c.cfg.node_of(c.cfg.enclosing(n, (ast.For,)) or n).id})
+            for _t, n in enter) and all(
+                c.cfg.enclosing(n, (ast.For,)) is not None and
+                not [x for x in ast.walk(c.cfg.enclosing(n, (ast.For,)))
+                     if isinstance(x, (ast.Break, ast.Continue))]
+                for _t, n in enter + exit_)
     ctx.check(ok, "C13e-auto-finalize", af,
               "auto_finalize enters every writer and exits every writer in "
-              "a finally around the body", "auto_finalize changed",
+              "a finally around the body",
+              f"enter calls {len(enter)}, exit calls {len(exit_)}, yields "
+              f"{len(ys)}; an exit call outside the finally of the yielding "
+              "try, or a loop over the writers that may stop early",
               node=af.node)
     ex = prog.func(TD + "TabularDataWriter.__exit__")
     en = prog.func(TD + "TabularDataWriter.__enter__")
-    ok = "self.finalize()" in ast.unparse(ex.node) and \
-        "self.initialize()" in ast.unparse(en.node)
+    ce, cx = Calls(prog, en), Calls(prog, ex)
+    rets = [t for _r, t in ce.T.returns()]
+    ok = ce.on_every_path(ce.mcalls("initialize", SELF)) and \
+        cx.on_every_path(cx.mcalls("finalize", SELF)) and \
+        bool(rets) and all(t == SELF for t in rets)
     ctx.check(ok, "C13e-context-manager", ex,
-              "with-blocks initialize on entry and finalize on exit",
-              "__enter__/__exit__ changed", node=ex.node)
-    # CSV writer
+              "with-blocks initialize on entry (and hand out the writer "
+              "itself) and finalize on exit",
+              "__enter__ does not initialize / return self on every path, "
+              "or __exit__ does not finalize on every path", node=ex.node)
+    # --- CSV writer
     ca = prog.func(TD + "CSVFileWriter.append_data")
-    body = [ast.unparse(s).replace("\n", "") for s in live(ca.node.body,
-                                                           ca.node)]
-    ok = body[:1] == ["self.check_valid_data(data)"] and len(body) == 2 and \
-        body[1].replace(" ", "") == (
-            "data.to_csv(self.file_name,mode='a',header=False,"
-            "**self.stdargs)")
-    ctx.check(ok, "C13e-csv-append", ca,
+    c = Calls(prog, ca)
+    DATA = ("param", ca.params[1])
+    V = [x for x in c.mcalls("check_valid_data", SELF)
+         if args_of(x[0]) == (DATA,)]
+    W = c.mcalls("to_csv")
+    why = []
+    if len(W) != 1 or not c.on_every_path(W):
+        why.append(f"{len(W)} to_csv call(s), not exactly one on every path")
+    else:
+        t = W[0][0]
+        kw = _to_csv_kwargs(prog, t)
+        if t[1] != DATA:
+            why.append("the frame written is not the frame appended")
+        if args_of(t)[:1] != (FNAME,) and (kw or {}).get(
+                "path_or_buf") != FNAME:
+            why.append("not written to the writer's file")
+        if kw is None:
+            why.append("keyword arguments not resolvable")
+        else:
+            if kw.get("mode") != ("const", "a"):
+                why.append("mode is not 'a'")
+            if kw.get("header") != ("const", False):
+                why.append("a header line would be repeated")
+            if kw.get("index") != ("const", False):
+                why.append("the row index would be written as a column")
+            if "columns" in kw:
+                why.append("a column selection is applied")
+        if not c.before(V, W):
+            why.append("columns are not validated before the rows are "
+                       "written")
+    ctx.check(not why, "C13e-csv-append", ca,
               "CSV append validates the columns, then appends all rows "
-              "without a header", f"{body}", node=ca.node)
+              "without a header", "; ".join(why), node=ca.node)
     ci = prog.func(TD + "CSVFileWriter.initialize")
-    ok = "pd.DataFrame(columns=self.columns)" in ast.unparse(ci.node) and \
-        "df.to_csv(self.file_name, **self.stdargs)" in ast.unparse(ci.node)
-    ctx.check(ok, "C13e-csv-header", ci,
+    c = Calls(prog, ci)
+    W = c.mcalls("to_csv")
+    why = []
+    if len(W) != 1 or not c.on_every_path(W):
+        why.append(f"{len(W)} to_csv call(s), not exactly one on every path")
+    else:
+        t = W[0][0]
+        kw = _to_csv_kwargs(prog, t)
+        fr = t[1]
+        if not (fr[0] == "call" and fr[1] == "pandas.DataFrame"
+                and not fr[2] and dict(fr[3]) == {
+                    "columns": ("attr", SELF, "columns")}):
+            why.append("the frame written is not an empty frame with the "
+                       "writer's columns")
+        if args_of(t)[:1] != (FNAME,) and (kw or {}).get(
+                "path_or_buf") != FNAME:
+            why.append("not written to the writer's file")
+        if kw is None:
+            why.append("keyword arguments not resolvable")
+        else:
+            if kw.get("mode", ("const", "w")) != ("const", "w"):
+                why.append("the file is not truncated")
+            if kw.get("header", ("const", True)) != ("const", True):
+                why.append("no header line is written")
+            if kw.get("index") != ("const", False):
+                why.append("the row index would be written as a column")
+    ctx.check(not why, "C13e-csv-header", ci,
               "CSV initialize writes exactly the header line",
-              "CSV header initialisation changed", node=ci.node)
+              "; ".join(why), node=ci.node)
     cv = prog.func(TD + "TabularDataWriter.check_valid_data")
-    cfg = CFG(cv.node)
-    r = [n for n in ast.walk(cv.node) if isinstance(n, ast.Raise)]
-    ok = any("columns == self.get_column_names()" in ast.unparse(g[0])
-             for x in r for g in cfg.guards(x))
+    cvc = Calls(prog, cv)
+    DATA = ("param", cv.params[1])
+    GIVEN = {("mcall", ("attr", DATA, "columns"), "tolist", (), ()),
+             ("call", "builtins.list", (("attr", DATA, "columns"),), ())}
+    OWN = {("mcall", SELF, "get_column_names", (), ()),
+           ("attr", SELF, "columns"),
+           ("call", "builtins.list", (("attr", SELF, "columns"),), ())}
+    ok = False
+    for r in [n for n in walk_own(cv.node) if isinstance(n, ast.Raise)]:
+        for t, outcome in cond_terms(cvc.cfg, cvc.T, r):
+            if t[0] == "cmp" and t[1] in ("==", "!=") and (
+                    (t[2] in GIVEN and t[3] in OWN)
+                    or (t[3] in GIVEN and t[2] in OWN)):
+                if (t[1] == "==") != bool(outcome):
+                    ok = True
     ctx.check(ok, "C13e-column-check", cv,
               "appended frames must carry exactly the writer's columns, in "
-              "order", "column validation changed", node=cv.node)
-    # Parquet writer
+              "order", "no raise under 'the frame's column list differs "
+              "from the writer's column list'", node=cv.node)
+    # --- Parquet writer
     pa_ = prog.func(TD + "ParquetFileWriter.append_data")
-    txt = ast.unparse(pa_.node).replace("\n", "").replace(" ", "")
-    ok = "pa.Table.from_pandas(data,preserve_index=False," \
-        "schema=self.get_schema())" in txt and \
-        "self.writer.write_table(table)" in txt
-    ctx.check(ok, "C13e-parquet-append", pa_,
+    c = Calls(prog, pa_)
+    DATA = ("param", pa_.params[1])
+    WRITER = ("attr", SELF, "writer")
+    SCHEMA = ("mcall", SELF, "get_schema", (), ())
+    W = c.mcalls("write_table", WRITER)
+    why = []
+    if len(W) != 1 or not c.on_every_path(W):
+        why.append(f"{len(W)} write_table call(s) on self.writer, not "
+                   "exactly one on every path")
+    else:
+        t = W[0][0]
+        tab = args_of(t)[0] if args_of(t) else None
+        if not (tab and tab[0] == "call"
+                and tab[1] == "pyarrow.Table.from_pandas"
+                and tab[2][:1] == (DATA,)):
+            why.append("the table written is not built from the appended "
+                       "frame")
+        else:
+            kw = dict(tab[3])
+            if kw.get("preserve_index") != ("const", False):
+                why.append("the row index is written")
+            if kw.get("schema") != SCHEMA:
+                why.append("not converted with the writer's schema")
+            if "columns" in kw:
+                why.append("a column selection is applied")
+    ctx.check(not why, "C13e-parquet-append", pa_,
               "Parquet append writes the whole frame with the writer's "
-              "schema, without the index", "Parquet append changed",
-              node=pa_.node)
+              "schema, without the index", "; ".join(why), node=pa_.node)
     pf = prog.func(TD + "ParquetFileWriter.finalize")
-    ctx.check("self.writer.close()" in ast.unparse(pf.node),
+    c = Calls(prog, pf)
+    ctx.check(c.on_every_path(c.mcalls("close", WRITER)),
               "C13e-parquet-close", pf, "Parquet finalize closes the file",
-              "Parquet writer is not closed", node=pf.node)
+              "Parquet writer is not closed on every path", node=pf.node)
     pi = prog.func(TD + "ParquetFileWriter.initialize")
-    ctx.check("pq.ParquetWriter(self.file_name, schema=self.get_schema())"
-              in ast.unparse(pi.node).replace("\n", ""),
-              "C13e-parquet-open", pi,
+    c = Calls(prog, pi)
+    st = [(c.T.of(v), s) for (r, a_, v, s) in c.du.attr_stores
+          if r == "self" and a_ == "writer"]
+    ok = len(st) == 1 and st[0][0][0] == "call" and \
+        st[0][0][1] == "pyarrow.parquet.ParquetWriter" and (
+            st[0][0][2][:1] == (FNAME,)
+            or dict(st[0][0][3]).get("where") == FNAME) and (
+            dict(st[0][0][3]).get("schema") == SCHEMA
+            or st[0][0][2][1:2] == (SCHEMA,)) and \
+        c.cfg.every_path_passes(c.cfg.entry.id, c.cfg.exit.id,
+                                {c.cfg.node_of(st[0][1]).id})
+    ctx.check(ok, "C13e-parquet-open", pi,
               "Parquet initialize opens a fresh file with the schema",
-              "Parquet initialize changed", node=pi.node)
+              f"self.writer = {[show(x[0], 120) for x in st]}", node=pi.node)
     # every writer group with appends reaches finalize
     n_groups = 0
     for q in sorted(prog.funcs):
